@@ -370,6 +370,42 @@ theorem worksheet_part_order (x : Ext) (cfg : Cfg) (prolog sv : Bytes) (n : Int)
   rw [hout', hep, hm, hpd]
   simp only [List.append_assoc]
 
+/-! ## panes -/
+
+/-- **SetPanes content.** Before the first row, `SetPanes(p)` makes the pre-data: `<sheetViews><sheetView` + the view's own
+attributes + `>` + the pane element + the selections + `</sheetView></sheetViews>`, then `sheetFormatPr`, the columns and the
+`sheetData` start tag. (`panesSV` is compared byte for byte with the real rendering on every SetPanes of the transcript.) -/
+theorem setPanes_content (s : SW) (hsw : s.sheetWritten = false) (va f5 : Bytes) (p : PaneOpts) :
+    (setPanes s true (panesSV va f5 p)).2 = none ∧
+    (setPanes s true (panesSV va f5 p)).1.pre =
+      lit "<sheetViews><sheetView" ++ va ++ lit ">" ++ paneElem p ++ p.selection.flatMap selectionElem
+        ++ lit "</sheetView></sheetViews>" ++ f5 ++ renderCols s.colStyles ++ lit "<sheetData>" := by
+  simp [setPanes, hsw, preData, panesSV]
+
+/-- The pane element is absent exactly when the options neither freeze nor split (`setPanes` removes the pane then);
+otherwise its attributes are, as a finite map, exactly the options: `state="frozen"` only for a frozen pane, `xSplit` /
+`ySplit` when non-zero, `topLeftCell` / `activePane` when non-empty. The in-memory `SetPanes` builds the same `xlsxPane`
+(`ws.setPanes` is shared) and the same encoder writes it, so `GetPanes` agrees on both sides. -/
+theorem pane_element (p : PaneOpts) :
+    (paneElem p = [] ↔ (p.freeze = false ∧ p.split = false)) ∧
+    attrOf (paneAttrs p) (lit "state") = (if p.freeze then some (lit "frozen") else none) ∧
+    attrOf (paneAttrs p) (lit "xSplit") = (if p.xSplit ≠ 0 then some (itoaInt p.xSplit) else none) ∧
+    attrOf (paneAttrs p) (lit "ySplit") = (if p.ySplit ≠ 0 then some (itoaInt p.ySplit) else none) ∧
+    attrOf (paneAttrs p) (lit "topLeftCell") = (if p.topLeftCell ≠ [] then some (escapeText p.topLeftCell) else none) ∧
+    attrOf (paneAttrs p) (lit "activePane") = (if p.activePane ≠ [] then some (escapeText p.activePane) else none) :=
+  ⟨paneElem_nil_iff p, paneAttrs_map p⟩
+
+/-- the struct tags of `xlsxPane` and `xlsxSelection` the pane rendering follows (regenerated) -/
+theorem pane_tags_ok :
+    Facts.C11.tags_xlsxPane.map (fun f => (f.1, f.2.2)) =
+      [("ActivePane", "xml:\"activePane,attr,omitempty\""), ("State", "xml:\"state,attr,omitempty\""),
+       ("TopLeftCell", "xml:\"topLeftCell,attr,omitempty\""), ("XSplit", "xml:\"xSplit,attr,omitempty\""),
+       ("YSplit", "xml:\"ySplit,attr,omitempty\"")] ∧
+    Facts.C11.tags_xlsxSelection.map (fun f => (f.1, f.2.2)) =
+      [("ActiveCell", "xml:\"activeCell,attr,omitempty\""), ("ActiveCellID", "xml:\"activeCellId,attr\""),
+       ("Pane", "xml:\"pane,attr,omitempty\""), ("SQRef", "xml:\"sqref,attr,omitempty\"")] := by
+  constructor <;> decide
+
 /-! ## Flush: the part after `sheetData` in schema order -/
 
 /-- indices of the `xlsxWorksheet` fields in the order the stream writer emits them: prolog, pre-data, `cols` and
